@@ -21,6 +21,7 @@ package main
 import (
 	"bufio"
 	"bytes"
+	"context"
 	"crypto/sha1"
 	"encoding/json"
 	"fmt"
@@ -204,6 +205,12 @@ func enumerate(group string, thorough bool) []Scenario {
 				out = append(out, s)
 			}
 		}
+	case "alias":
+		for _, l := range []int{1, 13, 255, 256, 1024, 4096, 65000} {
+			s := base
+			s.Len, s.Pat = l, 2
+			out = append(out, s)
+		}
 	case "pipe":
 		for _, l := range pipeLengths(thorough) {
 			if link == "udp" && l > udpCapacity-2 {
@@ -322,6 +329,9 @@ func groups() []string {
 		if multiplexed(l) {
 			g = append(g, "pipe/"+l.Name+"/request", "pipe/"+l.Name+"/response")
 		}
+	}
+	for _, l := range netlab.Links {
+		g = append(g, "alias/"+l.Name+"/response")
 	}
 	for _, part := range []string{"flip", "len", "struct"} {
 		for _, c := range serverCells {
@@ -590,6 +600,8 @@ func (x *executor) run(sc Scenario) {
 		x.echo(sc, link)
 	case sc.Part == "pipe":
 		x.pipe(sc, link, false)
+	case sc.Part == "alias":
+		x.alias(sc, link)
 	case sc.Side == "server":
 		x.serverSide(sc, link)
 	default:
@@ -845,6 +857,81 @@ func (x *executor) pipe(sc Scenario, link netlab.Link, retry bool) {
 	if len(x.res.Samples) < 2 && sc.Pat == 3 {
 		x.res.Samples = append(x.res.Samples, fmt.Sprintf("%s -> errA=%v errB=%v", sc, a.err, b.err))
 	}
+}
+
+// ---- part 1c: responses that share memory with their requests ----
+
+// alias: the service answers every request with the request slice itself (an IO-level pass-through, as a relay
+// or an echo service does). Eight callers send distinct payloads through one client for a number of rounds;
+// each must get its own bytes back. A handler that recycles the buffer of a request before the response has
+// left lets another request overwrite a response in flight. This part runs free: it is a complement (a fixed
+// number of rounds, not an enumeration of schedules); the controlled-scheduler version of the same scenario is
+// part of C09 (socket-server/.../response-is-the-request-slice).
+func (x *executor) alias(sc Scenario, link netlab.Link) {
+	if x.lab != nil {
+		x.lab.close()
+	}
+	l := &lab{link: link}
+	x.lab = l
+	l.svc = core.NewService()
+	l.svc.Use(func(ctx context.Context, request []byte, next core.NextIOHandler) ([]byte, error) {
+		return request, nil
+	})
+	srv, err := netlab.StartServer(link.Server, l.svc, netlab.ServerOptions{})
+	if err != nil {
+		x.res.Infra = append(x.res.Infra, "alias lab: "+err.Error())
+		return
+	}
+	l.srv = srv
+	l.cli = netlab.NewClient(link.Client, srv.URL(link.Client), echoTimeout)
+	netlab.Select(link.Client)
+	rounds, callers := 25, 8
+	if x.thorough {
+		rounds = 250
+	}
+	n := sc.Len
+	if link.Name == "udp" && n > 8000 {
+		n = 8000 // eight datagrams of 64 KiB at once overflow the socket buffers: loss is not the subject here
+	}
+	var mu sync.Mutex
+	var firstBad string
+	var errs, ok int
+	var wg sync.WaitGroup
+	for c := 0; c < callers; c++ {
+		wg.Add(1)
+		go func(c int) {
+			defer wg.Done()
+			for r := 0; r < rounds; r++ {
+				req := make([]byte, n)
+				for i := range req {
+					req[i] = byte(0x40 + c) // every caller has its own letter, the round is in the first bytes
+				}
+				copy(req, fmt.Sprintf("%c%04d", 'a'+c, r))
+				resp, err := netlab.Request(l.cli, req)
+				mu.Lock()
+				switch {
+				case err != nil:
+					errs++
+				case !bytes.Equal(resp, req):
+					if firstBad == "" {
+						firstBad = fmt.Sprintf("caller %d round %d sent %s and got %s", c, r, show(req), show(resp))
+					}
+				default:
+					ok++
+				}
+				mu.Unlock()
+			}
+		}(c)
+	}
+	wg.Wait()
+	x.distinct([]byte("alias"), []byte(sc.Link), []byte(fmt.Sprint(sc.Len)))
+	x.res.Counters["alias_echoes_exact"] += int64(ok)
+	x.res.Counters["alias_echo_errors"] += int64(errs)
+	if firstBad != "" {
+		x.res.violate(sc, "response-that-shares-memory-with-its-request-altered", fmt.Sprintf("the service answers with the request slice itself; %d callers x %d rounds of %d bytes: %s", callers, rounds, n, firstBad))
+	}
+	l.close()
+	x.lab = nil
 }
 
 // ---- reference readings ----
@@ -1323,6 +1410,8 @@ func jobSize(group string) int {
 		return 400
 	case strings.HasPrefix(group, "pipe/"):
 		return 60
+	case strings.HasPrefix(group, "alias/"):
+		return 2
 	case strings.HasPrefix(group, "flip/"):
 		return 700
 	}
